@@ -5,7 +5,7 @@ From Coq Require Import String.
 From Verif Require Import Bytes Textproto SendErr RefServer SmtpSend.
 Open Scope N_scope.
 
-Definition cfg0 : config := mkCfg (bs "client.test") false [] [] true.
+Definition cfg0 : config := mkCfg (bs "client.test") false [] [] true TlsNone.
 Definition m0 : msg := mkMsg 0 (Some (bs "a@x.test")) [bs "b@y.test"] false.
 Definition m1 : msg := mkMsg 1 (Some (bs "c@x.test")) [bs "d@y.test"] false.
 Definition body1 : bytes := bs "Subject: second" ++ crlf ++ crlf ++ bs "complete body" ++ crlf.
@@ -19,7 +19,7 @@ Definition render_fail0 (m : msg) : list bytes * option err :=
 Definition render_ok (m : msg) : list bytes * option err := ([body1], None).
 
 Definition run (F : fixes) (script : list decision) (ms : list msg) (render : msg -> list bytes * option err) : outcome :=
-  run_case std_expects F cfg0 [E8BITMIME; EENHANCED] script ms render.
+  run_case std_expects F cfg0 [E8BITMIME; EENHANCED] [] script ms render.
 
 (* (a) render failure after DATA, all-OK server: the fragment is committed by the implicit end-of-data of the
    next command, nobody is told (IsDelivered = false for both), and replies are read by the wrong commands *)
@@ -84,3 +84,22 @@ Example rset_temp_repaired :
   map (fun r => match r_err r with Some e => (se_reason e, se_code e, se_temp e, se_esc e, r_delivered r) | None => (0, 0, false, [], false) end)
       (o_results (run fixes_all script_rset_451 [m0] render_ok)) = [(reason_reset, 451, true, bs "4.3.0", true)].
 Proof. vm_compute. reflexivity. Qed.
+
+(* (f) a variant of ehlo() that keeps the old extension map when the EHLO reply has no extension line
+   (fx_ehlo_replace = false): STARTTLS session, 8BITMIME advertised before TLS, nothing inside TLS: the
+   client still sends BODY=8BITMIME and does not refuse the 8bit message locally *)
+Definition fixes_keep_ext : fixes := mkFx true true true true true true re_anchored false.
+Definition cfg_tls : config := mkCfg (bs "client.test") false [] [] true TlsMandatory.
+Definition m8 : msg := mkMsg 0 (Some (bs "a@x.test")) [bs "b@y.test"] true.
+Definition run_tls (F : fixes) : outcome :=
+  run_case std_expects F cfg_tls [E8BITMIME; ESTARTTLS] [] [] [m8] render_ok.
+
+Example ext_not_replaced_refuted : all_legal (o_world (run_tls fixes_keep_ext)) = false.
+Proof. vm_compute. reflexivity. Qed.
+
+Example ext_replaced_ok :
+  all_legal (o_world (run_tls fixes_all)) = true /\
+  map (fun r => match r_err r with Some e => se_reason e | None => 99 end) (o_results (run_tls fixes_all)) = [reason_no_unencoded] /\
+  map (fun e => match ev_cmd e with CStartTLS => true | _ => false end) (w_trace (o_world (run_tls fixes_all)))
+    = [false; false; true; false; false; false].
+Proof. vm_compute. repeat split; reflexivity. Qed.
